@@ -238,7 +238,7 @@ def mkseed(v, spec, sibling=False):
     return np.int64(v) if spec.get("np") else v
 
 
-def make_archive(spec, seed, sibling=False):
+def make_archive(spec, seed, sibling=False, kmkw=None):
     from ribs.archives import CVTArchive, GridArchive, ProximityArchive, SlidingBoundariesArchive
     rng2 = [(-2.0, 2.0), (-2.0, 2.0)]
     s = mkseed(seed, spec, sibling)
@@ -256,7 +256,8 @@ def make_archive(spec, seed, sibling=False):
             cent = np.array([[a, b] for a in g for b in g][:12])
             return CVTArchive(solution_dim=D, cells=12, ranges=rng2, seed=s, custom_centroids=cent, **kw)
         if m == "kmeans" and spec.get("kmkw") is not None:
-            kw["k_means_kwargs"] = copy.deepcopy(spec["kmkw"])  # user options; random_state stays the default
+            # user options (random_state stays the default); `kmkw`: the caller's dict object
+            kw["k_means_kwargs"] = kmkw if kmkw is not None else copy.deepcopy(spec["kmkw"])
         if m == "kmeans":
             # the user's process has as many OpenMP threads as cores (`./check` pins OMP_NUM_THREADS=1 for speed;
             # threadpoolctl raises the limit at run time): scikit-learn's k-means then sums over the samples in a
@@ -270,6 +271,9 @@ def make_archive(spec, seed, sibling=False):
         return SlidingBoundariesArchive(solution_dim=D, dims=[5, 5], ranges=rng2, seed=s, remap_frequency=9,
                                         buffer_capacity=40)
     if kind == "proximity":
+        if spec.get("coarse"):  # few, far-apart elites: most candidates compete with (and replace) a neighbour
+            return ProximityArchive(solution_dim=D, measure_dim=2, k_neighbors=1, novelty_threshold=1.0, seed=s,
+                                    initial_capacity=4, local_competition=bool(spec.get("lc", False)))
         return ProximityArchive(solution_dim=D, measure_dim=2, k_neighbors=2, novelty_threshold=0.15, seed=s,
                                 initial_capacity=4, local_competition=bool(spec.get("lc", False)))
     raise ValueError(kind)
@@ -284,6 +288,9 @@ def ranker_arg(spec):
     from ribs.emitters import rankers as R
     cls = R._NAME_TO_RANKER_MAP[spec["ranker"]]   # pylint: disable=protected-access
     return cls.__name__ if form == "full" else cls
+
+
+KEEP = object()
 
 
 def build_es_kwargs(case, separate=False):
@@ -311,10 +318,56 @@ def build_es_kwargs(case, separate=False):
     return args, owned
 
 
+def build_config(case, eseeds, sib=-1, separate=False):
+    """The configuration OBJECTS a caller would write down once and build his pipeline(s) from: es_kwargs (per
+    emitter or shared), operator_kwargs of the GeneticAlgorithmEmitter (the one emitter whose seed travels inside
+    a dict), the bounds lists, the archive's k_means_kwargs.  run_case builds them once per case and constructs
+    BOTH runs of the same-seed comparison (and the pickled / fresh-process runs) from these same objects: building a
+    pipeline must leave them as they were.  Returns {'es': [...], 'op': [...], 'bounds': [...], 'kmkw': obj,
+    'owned': [(object, pristine copy, label)]}."""
+    es_args, es_owned = build_es_kwargs(case, separate)
+    owned = [(o, p_, f"es_kwargs dict of emitter(s) {u}") for o, p_, u in es_owned]
+    op, bounds = [], []
+    for k, e in enumerate(case["emitters"]):
+        okw = None
+        if e["kind"] == "gen":
+            sd = mkseed(eseeds[k], e, sib == k + 1)
+            okw = ({"sigma": 0.3, "seed": sd} if e.get("op", "gaussian") == "gaussian"
+                   else {"iso_sigma": 0.05, "line_sigma": 0.3, "seed": sd})
+            owned.append((okw, dict(okw), f"operator_kwargs dict of emitter {k}"))
+        op.append(okw)
+        box = ([tuple(TIGHT_BOUNDS)] * D if e.get("bounds") == "tight" else [(-3, 3)] * D if e.get("bounds")
+               else None)
+        if box is not None:
+            owned.append((box, list(box), f"bounds list of emitter {k}"))
+        bounds.append(box)
+    kmkw = None
+    a = case["archive"]
+    if a["kind"] == "cvt" and a.get("method") == "kmeans" and a.get("kmkw") is not None:
+        kmkw = copy.deepcopy(a["kmkw"])
+        owned.append((kmkw, copy.deepcopy(kmkw), "k_means_kwargs dict of the archive"))
+    return {"es": es_args, "op": op, "bounds": bounds, "kmkw": kmkw, "owned": owned}
+
+
 RANDOM_KEYS = {"seed", "randn", "rng", "random_state", "generator"}
 
 
+def canon_value(v):
+    """Comparable form of a configuration value (a SeedSequence has no __eq__)."""
+    if isinstance(v, np.random.SeedSequence):
+        return ("SeedSequence", repr(v.entropy), tuple(v.spawn_key), v.pool_size, v.n_children_spawned)
+    if isinstance(v, np.generic):
+        return (type(v).__name__, v.item())
+    return (type(v).__name__, v)
+
+
 def dict_changes(obj, pristine, prefix=""):
+    if isinstance(obj, list):
+        return [] if obj == pristine else [(prefix + "list contents changed", False)]
+    return _dict_changes(obj, pristine, prefix)
+
+
+def _dict_changes(obj, pristine, prefix=""):
     """Entries of a caller-owned (possibly nested) dict that differ from its pristine copy:
     list of (path, carries random material)."""
     out = []
@@ -328,16 +381,18 @@ def dict_changes(obj, pristine, prefix=""):
         elif key not in obj:
             out.append((path + " removed", str(key) in RANDOM_KEYS))
         elif isinstance(obj[key], dict) and isinstance(pristine[key], dict):
-            out += dict_changes(obj[key], pristine[key], path + ".")
+            out += _dict_changes(obj[key], pristine[key], path + ".")
         else:
-            a, b = obj[key], pristine[key]
-            same = type(a) is type(b) and (a == b or (a != a and b != b))
+            a, b = canon_value(obj[key]), canon_value(pristine[key])
+            same = a == b or (a[0] == b[0] and a[1] != a[1] and b[1] != b[1])
             if not same:
                 out.append((path + " changed", str(key) in RANDOM_KEYS))
     return out
 
 
-def make_emitter(spec, archive, seed, k, sibling=False, es_kwargs=None):
+def make_emitter(spec, archive, seed, k, sibling=False, es_kwargs=None, op_kwargs=None, bounds=KEEP):
+    """`es_kwargs`, `op_kwargs`, `bounds`: the caller's configuration objects (see build_config); by default
+    fresh ones are made here."""
     import ribs.emitters as E
     s = mkseed(seed, spec, sibling)
     x0 = np.full(D, 0.1 * (k + 1))
@@ -346,7 +401,9 @@ def make_emitter(spec, archive, seed, k, sibling=False, es_kwargs=None):
         return _spy(E.EvolutionStrategyEmitter)(
             archive, x0=x0, sigma0=0.5, ranker=ranker_arg(spec), es=spec["es"], selection_rule=spec.get("sel", "filter"),
             restart_rule=spec.get("restart", "no_improvement"), batch_size=spec.get("batch", 4), seed=s,
-            es_kwargs=es_kwargs, bounds=[tuple(TIGHT_BOUNDS)] * D if spec.get("bounds") == "tight" else None)
+            es_kwargs=es_kwargs,
+            bounds=bounds if bounds is not KEEP else [tuple(TIGHT_BOUNDS)] * D if spec.get("bounds") == "tight"
+            else None)
     if kind == "ga":
         return _spy(E.GradientArborescenceEmitter)(
             archive, x0=x0, sigma0=0.5, lr=0.1, ranker=ranker_arg(spec), es=spec["es"],
@@ -361,8 +418,8 @@ def make_emitter(spec, archive, seed, k, sibling=False, es_kwargs=None):
             archive, sigma=0.1, sigma_g=0.2, line_sigma=spec.get("line", 0.0), **start,
             measure_gradients=bool(spec.get("mg", False)), normalize_grad=bool(spec.get("norm", False)),
             operator_type=spec.get("op", "isotropic"), batch_size=spec.get("batch", 3), seed=s)
-    box = ([tuple(TIGHT_BOUNDS)] * D if spec.get("bounds") == "tight" else [(-3, 3)] * D if spec.get("bounds")
-           else None)
+    box = bounds if bounds is not KEEP else (
+        [tuple(TIGHT_BOUNDS)] * D if spec.get("bounds") == "tight" else [(-3, 3)] * D if spec.get("bounds") else None)
     if kind == "gauss":
         return _spy(E.GaussianEmitter)(archive, sigma=0.3, x0=x0, batch_size=spec.get("batch", 3), seed=s,
                                        bounds=box)
@@ -370,7 +427,9 @@ def make_emitter(spec, archive, seed, k, sibling=False, es_kwargs=None):
         return _spy(E.IsoLineEmitter)(archive, x0=x0, iso_sigma=0.05, line_sigma=0.3, batch_size=spec.get("batch", 3),
                                       seed=s, bounds=box)
     if kind == "gen":
-        if spec.get("op", "gaussian") == "gaussian":
+        if op_kwargs is not None:
+            okw = op_kwargs  # the caller's dict object; its seed was built by build_config
+        elif spec.get("op", "gaussian") == "gaussian":
             okw = {"sigma": 0.3, "seed": s}
         else:
             okw = {"iso_sigma": 0.05, "line_sigma": 0.3, "seed": s}
@@ -379,16 +438,22 @@ def make_emitter(spec, archive, seed, k, sibling=False, es_kwargs=None):
     raise ValueError(kind)
 
 
-def evaluate(sols):
+def evaluate(sols, mode=None):
+    """Deterministic evaluation: objective -|x|^2 (mode 'ridge': x0 + x1 - x2^2 - x3^2, increasing along the
+    measures, so that better solutions keep appearing at the edge of the archive); measures = first two coordinates."""
     sols = np.asarray(sols, dtype=np.float64)
+    if mode == "ridge":
+        return np.sum(sols[:, :2], axis=1) - np.sum(sols[:, 2:]**2, axis=1), sols[:, :2].copy()
     return -np.sum(sols**2, axis=1), sols[:, :2].copy()
 
 
-def jacobian(sols):
+def jacobian(sols, mode=None):
     sols = np.asarray(sols, dtype=np.float64)
     n = len(sols)
     jac = np.zeros((n, 3, D))
     jac[:, 0, :] = -2.0 * sols
+    if mode == "ridge":
+        jac[:, 0, :2] = 1.0
     jac[:, 1, 0] = 1.0
     jac[:, 2, 1] = 1.0
     return jac
@@ -438,10 +503,10 @@ class Obs:
         """The caller's es_kwargs dicts must still be what the caller built."""
         if self.kw_modified is not None:
             return
-        for obj, pristine, users in owned:
+        for obj, pristine, label in owned:
             ch = dict_changes(obj, pristine)
             if ch:
-                self.kw_modified = (f"{when} (es_kwargs of emitter(s) {users})", ch)
+                self.kw_modified = (when, ch, label)
                 return
 
 
@@ -488,7 +553,40 @@ def emitters_of(sched):
     return list(sched.emitters) if hasattr(sched, "emitters") else list(sched.emitter_pool)
 
 
-def run_pipeline(case, variant, stop_at=None):
+def look_around(sched):
+    """The observer of run B: READS public, read-only things of a running pipeline, as logging / plotting code
+    does between the calls.  Nothing here draws random numbers or is documented to change state, so run B must stay
+    bit-identical to run A, which never looks."""
+    def peek(obj, names):
+        for nm in names:
+            try:
+                v = getattr(obj, nm)
+                if nm in ("data",):
+                    v = v()
+                if isinstance(v, np.ndarray):
+                    v = v.sum() if v.dtype.kind in "fiub" else len(v)
+            except Exception:  # pylint: disable=broad-except
+                pass  # e.g. the bounds of an empty ProximityArchive: reading may be refused, it must not matter
+
+    archives = [sched.archive] + ([sched.result_archive] if sched.result_archive is not sched.archive else [])
+    for a in archives:
+        peek(a, ["upper_bounds", "lower_bounds", "stats", "best_elite", "empty", "cells", "solution_dim",
+                 "measure_dim", "dtypes", "field_list", "learning_rate", "threshold_min", "qd_score_offset", "data",
+                 "centroids", "boundaries", "dims", "interval_size", "capacity", "k_neighbors", "novelty_threshold",
+                 "local_competition", "remap_frequency", "buffer_capacity", "samples"])
+        try:
+            len(a)
+            for _ in zip(range(2), a):
+                pass
+        except Exception:  # pylint: disable=broad-except
+            pass
+    for em in emitters_of(sched):
+        peek(em, ["x0", "batch_size", "restarts", "itrs", "lower_bounds", "upper_bounds", "solution_dim", "archive",
+                  "sigma", "sigma0", "iso_sigma", "line_sigma", "initial_solutions", "epsilon", "sigma_g"])
+    peek(sched, ["emitters", "emitter_pool", "active", "archive", "result_archive"])
+
+
+def run_pipeline(case, variant, stop_at=None, cfg=None):
     """Runs the pipeline of `case` once.
 
     variant: 'a' | 'b' (global state + foreign draws of that name), 'p' (as 'a', pickled at case['ckpt']),
@@ -517,22 +615,34 @@ def run_pipeline(case, variant, stop_at=None):
     try:
         with warnings.catch_warnings():
             warnings.simplefilter("ignore")
-            with obs.guard("archive constructor"):
-                archive = make_archive(case["archive"], aseed, sibling=sib == 0)
+            if cfg is None:
+                cfg = build_config(case, eseeds, sib, separate=variant == "d")
+            owned = cfg["owned"]
+            try:
+                with obs.guard("archive constructor"):
+                    archive = make_archive(case["archive"], aseed, sibling=sib == 0, kmkw=cfg["kmkw"])
+            finally:
+                obs.check_owned(owned, "constructing the archive")
             if hasattr(archive, "centroids"):
                 obs.put("centroids", archive.centroids)
+            if case["archive"].get("prefill"):
+                # a few evaluated solutions before the emitters exist (the random-direction rankers read the
+                # archive's bounds when they are constructed; a ProximityArchive has none while it is empty)
+                init = np.random.default_rng(5).uniform(-1, 1, (int(case["archive"]["prefill"]), D))
+                with obs.guard("archive.add (prefill)"):
+                    archive.add(init, *evaluate(init, case.get("eval")))
             result = None
             if case.get("result_archive"):
                 with obs.guard("result archive constructor"):
                     result = make_archive({"kind": "grid"}, aseed + 1)
             foreign(case["ops"][0][which][:3] if case["ops"] else (0, 0, None))
             ems = []
-            kwargs, owned = build_es_kwargs(case, separate=variant == "d")
             for k, es in enumerate(case["emitters"]):
                 try:
                     with obs.guard(f"emitter {k} constructor"):
                         ems.append(make_emitter(es, archive, eseeds[k], k, sibling=sib == k + 1,
-                                                es_kwargs=kwargs[k]))
+                                                es_kwargs=cfg["es"][k], op_kwargs=cfg["op"][k],
+                                                bounds=cfg["bounds"][k]))
                 finally:
                     obs.check_owned(owned, f"constructing emitter {k}")
             with obs.guard("scheduler constructor"):
@@ -556,19 +666,23 @@ def run_pipeline(case, variant, stop_at=None):
                         sched = pickle.loads(blob)
                     archive = ems = result = None
                 foreign(f[:3])
+                if variant == "b":
+                    look_around(sched)
                 if dqd:
                     with obs.guard(f"ask_dqd[{it}]"):
                         sols = sched.ask_dqd()
                     obs.put(f"ask_dqd[{it}]", sols)
-                    obj, meas = evaluate(sols)
-                    jac = jacobian(sols)
+                    obj, meas = evaluate(sols, case.get("eval"))
+                    jac = jacobian(sols, case.get("eval"))
                     foreign((f[3], f[4], None))
                     with obs.guard(f"tell_dqd[{it}]"):
                         sched.tell_dqd(obj, meas, jac)
                 with obs.guard(f"ask[{it}]"):
                     sols = sched.ask()
                 obs.put(f"ask[{it}]", sols)
-                obj, meas = evaluate(sols)
+                obj, meas = evaluate(sols, case.get("eval"))
+                if variant == "b" and it % 2 == 1:
+                    look_around(sched)
                 if mid and it == ck:
                     with obs.guard("pickle.dumps"):
                         blob = pickle.dumps(sched)
@@ -622,14 +736,14 @@ def resume_pipeline(case, blob, start):
                     with obs.guard(f"ask_dqd[{it}]"):
                         sols = sched.ask_dqd()
                     obs.put(f"ask_dqd[{it}]", sols)
-                    obj, meas = evaluate(sols)
+                    obj, meas = evaluate(sols, case.get("eval"))
                     foreign((f[3], f[4], None))
                     with obs.guard(f"tell_dqd[{it}]"):
-                        sched.tell_dqd(obj, meas, jacobian(sols))
+                        sched.tell_dqd(obj, meas, jacobian(sols, case.get("eval")))
                 with obs.guard(f"ask[{it}]"):
                     sols = sched.ask()
                 obs.put(f"ask[{it}]", sols)
-                obj, meas = evaluate(sols)
+                obj, meas = evaluate(sols, case.get("eval"))
                 foreign((f[3], f[4], None))
                 with obs.guard(f"tell[{it}]"):
                     sched.tell(obj, meas)
@@ -712,19 +826,22 @@ def run_case(case, ctx=None):
     cnt = (lambda k: ctx.count(k)) if ctx is not None else (lambda k: None)
     what = describe(case)
     # (i) same seeds, different global states and foreign interleavings
-    oa, _, _ = run_pipeline(case, "a")
+    # the caller's configuration objects are written down ONCE per case: both runs of the same-seed comparison,
+    # the pickled run and the fresh-process run are built from these same objects
+    cfg = build_config(case, [e["seed"] for e in case["emitters"]])
+    oa, _, _ = run_pipeline(case, "a", cfg=cfg)
     if oa.disturbed is not None:
         return Failure("oracle", f"global random state disturbed by {oa.disturbed} (first run) :: {what}")
     if oa.kw_modified is not None:
-        when, changes = oa.kw_modified
-        cnt("es_kwargs-modified")
+        when, changes, label = oa.kw_modified
+        cnt("config-object-modified")
         if any(rnd for _, rnd in changes):
-            # the caller's dict now carries this emitter's seed / generator: every later component built from
-            # the same dict is seeded by it (and what an emitter draws depends on which one was built before it)
-            return Failure("oracle", f"the caller's es_kwargs dict was modified by {when}: "
-                                     f"{', '.join(c for c, _ in changes[:8])} -- it now carries random material of "
-                                     f"that emitter :: {what}")
-    ob, _, _ = run_pipeline(case, "b")
+            # the caller's object gained / lost a seed or generator: every later component or pipeline built from
+            # the same object is seeded differently (what it draws depends on what was built before it)
+            return Failure("oracle", f"the caller's {label} was modified by {when}: "
+                                     f"{', '.join(c for c, _ in changes[:8])} -- random material (seed / generator) "
+                                     f"was written into or taken out of the caller's object :: {what}")
+    ob, _, _ = run_pipeline(case, "b", cfg=cfg)
     if ob.disturbed is not None:
         return Failure("oracle", f"global random state disturbed by {ob.disturbed} (second run) :: {what}")
     d = first_diff(oa, ob)
@@ -766,7 +883,7 @@ def run_case(case, ctx=None):
         cnt("iv:shared-es_kwargs-identical")
     # (ii) pickle continuation
     if not has_pycma(case):
-        op, _, _ = run_pipeline(case, "p")
+        op, _, _ = run_pipeline(case, "p", cfg=cfg)
         if op.disturbed is not None:
             return Failure("oracle", f"global random state disturbed by {op.disturbed} (pickled run) :: {what}")
         d = first_diff(oa, op)
@@ -1215,7 +1332,37 @@ def strata(ctx):
         c["num_active"] = n
         return c
 
-    return {"archives": g_archives, "es": g_es, "dqd": g_dqd, "mixed": g_mixed, "eskw": g_eskw}
+    obs_i = [r0.randrange(4)]
+
+    def g_observer(rng):
+        """Long runs on a coarse ProximityArchive with local competition (elites at the edge get replaced, so the
+        archive's bounds move without the archive growing), random-direction rankers that re-read those bounds at
+        every restart, restarts every 3-5 iterations: the setting in which WHEN somebody reads a cached read-only
+        property can matter.  Run B reads them all the time (look_around), run A never."""
+        j = obs_i[0]
+        obs_i[0] += 1
+        n_iter = rng.randint(70, 80)
+        c = base_case(rng, n_iter)
+        c["archive"] = {"kind": "proximity", **seed_fields(rng), "lc": True, "coarse": True, "prefill": 6}
+        c["eval"] = "ridge" if j % 2 == 0 else None
+        ems = []
+        for k_ in range(3):
+            e = es_emitter(rng, "grid", ["cma_es", "sep_cma_es", "cma_es", "lm_ma_es"][(j + k_) % 4],
+                           "rd" if j % 2 == 0 else ["rd", "2rd", "rd"][k_], tight=False)
+            if j % 2 == 0:
+                e["sel"] = "filter"
+            # every emitter restarts (= its ranker re-reads the bounds) only every 3rd-5th iteration: an emitter that
+            # restarted after every iteration would read them as often as the observer does
+            e["restart"] = [3, 4, 3, 5][j % 4]
+            e["batch"] = 4 if e["es"] == "lm_ma_es" else 8
+            e.pop("eskw", None)
+            ems.append(e)
+        c["emitters"] = ems
+        c["change"] = rng.randrange(1, 4)
+        return c
+
+    return {"archives": g_archives, "es": g_es, "dqd": g_dqd, "mixed": g_mixed, "eskw": g_eskw,
+            "observer": g_observer}
 
 
 def minimise(case, fail):
@@ -1268,9 +1415,10 @@ def signature(case, fail):
         return (label, case["archive"]["kind"], case["archive"].get("method"))
     if "global random state disturbed" in label:
         return (label,)
-    if "es_kwargs dict was modified" in label:
+    if "the caller's" in label and "was modified by" in label:
         raw = fail.what.split(" :: ")[0]
-        return ("es_kwargs modified", raw.split("): ")[-1].split(" -- ")[0])  # the entries that were written
+        which = raw.split("the caller's ")[1].split(" dict")[0].split(" list")[0]
+        return ("config modified", which, raw.split(": ", 1)[-1].split(" -- ")[0])  # the entries that were written
     if "ONE shared es_kwargs dict" in label:
         return ("shared es_kwargs", tuple(sorted({e.get("es", "") for e in case["emitters"]
                                                   if e.get("eskw") is not None})))
@@ -1311,7 +1459,7 @@ def run(ctx):
     for f, c in probe_failures[:2]:
         ctx.fail(f, c)
     gens = strata(ctx)
-    order = ["archives", "es", "dqd", "mixed", "eskw"]
+    order = ["archives", "es", "dqd", "mixed", "eskw", "observer"]
     if broken:
         # a broken obligation directs the search for a concrete failing input (DESIGN 2.8): strata that
         # exercise the files of the offending sites first, every stratum is run, and the search is extended
@@ -1331,6 +1479,7 @@ def run(ctx):
         "dqd": (ctx.n(10, 500), 10 if ctx.quick else 90),
         "mixed": (ctx.n(6, 700), 6 if ctx.quick else 110),
         "eskw": (ctx.n(7, 500), 6 if ctx.quick else 80),
+        "observer": (ctx.n(4, 150), 8 if ctx.quick else 60),
     }
     # (ii) in a fresh interpreter (about 2 s each): quick 1 case, thorough 8 per stratum
     # (plus one per stratum and round in the extended search after a broken proof obligation)
